@@ -1,5 +1,5 @@
 """C10 bounded stand-in: read-only operations never change the written form of any line or of the Gfa, nor any later answer."""
-import random
+import zlib, random
 from bounded import harness, state, universe
 import gfapy
 
@@ -24,6 +24,7 @@ def gfa_ops(g):
            ("n_dead_ends", lambda: g.n_dead_ends), ("n_dovetails", lambda: g.n_dovetails), ("n_containments", lambda: g.n_containments),
            ("n_internals", lambda: g.n_internals), ("info", lambda: g.info(short=True) if hasattr(g, "info") else None),
            ("own_version_s", lambda: g.to_gfa1_s() if g.version == "gfa1" else g.to_gfa2_s()),
+           ("other_version_s", lambda: g.to_gfa2_s() if g.version == "gfa1" else g.to_gfa1_s()),
            ("unused?", lambda: None), ("headers", lambda: g.headers), ("header_tags", lambda: g.header.tagnames)]
     for n in list(g.names)[:6]:
         ops.append(("line:%s" % n, lambda n=n: g.line(n)))
@@ -37,7 +38,8 @@ def gfa_ops(g):
 def line_ops(g, l):
     ops = [("str", lambda: str(l)), ("to_list", lambda: l.to_list()), ("tagnames", lambda: l.tagnames), ("validate", lambda: l.validate()),
            ("clone", lambda: str(l.clone())), ("eq_clone", lambda: l == l.clone()), ("diff", lambda: l.diff(l.clone())), ("eq_self", lambda: l == l),
-           ("refstr", lambda: l.refstr() if hasattr(l, "refstr") else None), ("all_references", lambda: l.all_references)]
+           ("refstr", lambda: l.refstr() if hasattr(l, "refstr") else None), ("all_references", lambda: l.all_references),
+           ("other_version_s", lambda: l.to_gfa2_s() if l.version == "gfa1" else l.to_gfa1_s())]
     for fn in l.positional_fieldnames + l.tagnames:
         ops += [("get:" + fn, lambda fn=fn: l.get(fn)), ("try_get:" + fn, lambda fn=fn: l.try_get(fn)), ("field_to_s:" + fn, lambda fn=fn: l.field_to_s(fn)),
                 ("get_datatype:" + fn, lambda fn=fn: l.get_datatype(fn)), ("validate_field:" + fn, lambda fn=fn: l.validate_field(fn))]
@@ -87,6 +89,8 @@ PENDING = [["# c", "X\tcustom\trecord\txx:i:1"], ["L\tA\t+\tB\t+\t4M1D2M"], ["H\
 
 
 def check(case):
+    if case[0] == "assigned":
+        return assigned_case(case)
     version, ids, vlevel, seed = case
     rng = random.Random(seed)
     fails = []
@@ -148,6 +152,63 @@ def check(case):
     return dict(key=(version, tuple(ids), vlevel), nontrivial=nops > 10, failures=fails, sample=dict(lines=lines, vlevel=vlevel, read_only_calls=nops))
 
 
+# a field assigned as text after the line was made: well-formed text, which may contradict the rest of the record (end before begin, LN against the
+# sequence, one overlap too many) - whatever a read answers, it answers it again
+ASSIGNED = [("E\te\tA+\tB+\t6\t8$\t0\t2\t*", "gfa2", "end1", "5"), ("E\te\tA+\tB+\t6\t8$\t0\t2\t*", "gfa2", "beg2", "1"), ("E\te\tA+\tB+\t6\t8$\t0\t2\t*", "gfa2", "alignment", "2M"),
+            ("S\tA\tACGT", "gfa1", "LN", "7"), ("S\tA\tACGT", "gfa1", "LN", "4"), ("S\tA\tACGT\tLN:i:4", "gfa1", "sequence", "ACGTA"),
+            ("P\tp\tA+,B+,C+\t*", "gfa1", "overlaps", "2M,2M,2M,2M"), ("P\tp\tA+,B+,C+\t*", "gfa1", "overlaps", "2M,2M"), ("P\tp\tA+,B+,C+\t2M,2M", "gfa1", "segment_names", "A+,B+"),
+            ("F\tA\tx+\t0\t8$\t0\t8\t*", "gfa2", "s_end", "0"), ("F\tA\tx+\t0\t8$\t0\t8\t*", "gfa2", "f_beg", "9"), ("G\tg\tA+\tB-\t10\t*", "gfa2", "disp", "-3"), ("G\tg\tA+\tB-\t10\t*", "gfa2", "var", "2"),
+            ("S\tA\t8\t*", "gfa2", "slen", "3"), ("S\tA\t8\tACGTACGT", "gfa2", "slen", "3"), ("L\tA\t+\tB\t+\t2M", "gfa1", "overlap", "3M1D"), ("C\tA\t+\tB\t+\t1\t2M", "gfa1", "pos", "7"),
+            ("S\tA\t*\txx:i:1", "gfa1", "xx", "12"), ("S\tA\t*\txx:J:[1]", "gfa1", "xx", "{\"a\": [2]}"), ("S\tA\t*\txx:B:c,1", "gfa1", "xx", "C,1,200")]
+
+
+# the same with text which is valid but not spelled as gfapy writes it
+ASSIGNED_SPELLED = [("S\tA\t*\txx:i:1", "gfa1", "xx", "+5"), ("S\tA\t*\txx:f:1.0", "gfa1", "xx", "1.50"), ("S\tA\t*\txx:J:[1]", "gfa1", "xx", "[1,2]"), ("S\tA\t*\txx:B:c,1", "gfa1", "xx", "i,1,2"),
+                    ("L\tA\t+\tB\t+\t2M", "gfa1", "overlap", "02M"), ("E\te\tA+\tB+\t6\t8$\t0\t2\t*", "gfa2", "beg2", "00")]
+
+
+def assigned_case(case):
+    _, text, version, field, value, vlevel = case[:6]
+    spelled = len(case) > 6
+    fails = []
+    c = dict(line=text, field=field, value=value, vlevel=vlevel)
+    try:
+        l = gfapy.Line(text, vlevel=vlevel, version=version)
+        l.set(field, value)
+    except gfapy.Error:
+        return dict(key=case[1:], nontrivial=False, failures=[])          # (refused at the assignment: subject of C18)
+    ops = [("str", lambda: str(l)), ("validate", lambda: l.validate()), ("to_list", lambda: l.to_list())]
+    for fn in l.positional_fieldnames + l.tagnames:
+        ops += [("get:" + fn, lambda fn=fn: l.get(fn)), ("field_to_s:" + fn, lambda fn=fn: l.field_to_s(fn)), ("validate_field:" + fn, lambda fn=fn: l.validate_field(fn)),
+                ("attr:" + fn, lambda fn=fn: getattr(l, fn))]
+    random.Random(zlib.crc32(repr((text, field, value, vlevel)).encode())).shuffle(ops)
+    def ask(f):
+        try:
+            return ("ok", rep(f()))
+        except gfapy.Error as e:
+            return ("err", type(e).__name__)
+        except Exception as e:
+            return ("foreign", type(e).__name__)
+    def written():
+        try:
+            return str(l)
+        except gfapy.Error as e:
+            return "<%s>" % type(e).__name__
+    for name, f in ops:
+        w0 = written()
+        r1 = ask(f); r2 = ask(f)
+        if written() != w0:
+            fails.append(dict(signature="C10:state-changed-by:assigned:%s%s%s" % (name.split(":")[0], ":vlevel0" if vlevel == 0 else "", ":noncanonical-spelling" if spelled else ""),
+                              what="%s: written %r before, %r after" % (name, w0, written()), case=c,
+                              reproducer="import gfapy\nl = gfapy.Line(%r, vlevel=%d, version=%r)\nl.set(%r, %r)\nprint(str(l))\n# read-only call: %s\nprint(str(l))" % (text, vlevel, version, field, value, name)))
+        if r1[0] == "foreign":
+            fails.append(dict(signature="C10:foreign-exception:assigned:%s:%s" % (name.split(":")[0], r1[1]), what="%s raised %s" % (name, r1[1]), case=c))
+        if r1 != r2:
+            fails.append(dict(signature="C10:asking-twice-differs:assigned:%s" % name.split(":")[0], what="%s -> %s then %s" % (name, harness.short(r1, 150), harness.short(r2, 150)), case=c,
+                              reproducer="import gfapy\nl = gfapy.Line(%r, vlevel=%d, version=%r)\nl.set(%r, %r)\n# asked twice: %s" % (text, vlevel, version, field, value, name)))
+    return dict(key=case[1:], nontrivial=True, failures=fails, sample=dict(c, read_only_calls=2 * len(ops)))
+
+
 # valid tags and overlaps in a spelling that is not the one gfapy writes (spaces in JSON, an array subtype wider than needed, leading zeros)
 SPELLED = [["S\tA\t*\txx:J:{\"a\" :  1}"], ["S\tA\t*\txx:B:i,1,2"], ["S\tA\t*\txx:f:1.50"], ["S\tA\t*\txx:i:004"], ["S\tA\t*\txx:H:0a"],
            ["S\tA\t*", "S\tB\t*", "L\tA\t+\tB\t+\t01M2I"], ["S\tA\t8\t*\txx:J:[1,2]"], ["H\txx:J:[1,2]", "S\tA\t*"]]
@@ -170,6 +231,12 @@ def cases(tier, seed):
     for lines in SPELLED:
         for vlevel in (0, 1, 3):
             out.append(("spelled", tuple(lines), vlevel, rng.randrange(10**6)))
+    for text, version, field, value in ASSIGNED:
+        for vlevel in (0, 1, 2, 3):
+            out.append(("assigned", text, version, field, value, vlevel))
+    for text, version, field, value in ASSIGNED_SPELLED:
+        for vlevel in (0, 1, 2, 3):
+            out.append(("assigned", text, version, field, value, vlevel, "spelled"))
     for lines in PENDING:
         for vlevel in (0, 1, 3):
             for k in range(3):
@@ -183,6 +250,6 @@ if __name__ == "__main__":
     res = harness.run(cs, check,
                       rule="catalogue Gfas, Gfas with lines kept aside, and Gfas whose tags / overlaps are valid but not spelled as gfapy writes them, at vlevel 0/1/3; every read-only call of the list in bounded/c10.py (Gfa queries, per line: write, field reads, validation, clone/eq/diff, edge and alignment "
                            "queries incl. complement/equivalence/compatibility against every other link, neighbourhood, topology, path and set resolution) is made twice in a seeded random order; "
-                           "after each call the full-state snapshot must be unchanged and the two answers equal. one evaluation = one Gfa state with all its calls",
+                           "after each call the full-state snapshot must be unchanged and the two answers equal; plus stand-alone lines with one field assigned as text after construction (text that may contradict the rest of the record), every read asked twice. one evaluation = one Gfa state with all its calls",
                       bound="documents <=%d primary lines" % (2 if tier == "quick" else 3), exhaustive=False)
     harness.emit(res)
